@@ -1,6 +1,7 @@
 package main
 
 import (
+	"fmt"
 	"path/filepath"
 	"strings"
 )
@@ -34,8 +35,10 @@ func singleFileProj(tag string, data []byte) *Case {
 	return &Case{Op: "proj", Files: map[string][]byte{"root.jst": data}, Root: "root.jst", Tag: tag, Args: []string{"tree"}}
 }
 
-// splitIntoIncludes cuts top-level (and some nested) nodes of a rendered tree into include files
-func splitIntoIncludes(p *PRNG, nodes []*DNode, l *Layout, files map[string][]byte, prefix string, depth int) []*DNode {
+// splitIntoIncludes cuts top-level (and some nested) nodes of a rendered tree into include files.
+// `dir` is the directory (relative to the project) of the file that will hold the returned nodes:
+// INCLUDE names are relative to the including file's directory.
+func splitIntoIncludes(p *PRNG, nodes []*DNode, l *Layout, files map[string][]byte, dir string, depth int) []*DNode {
 	var out []*DNode
 	i := 0
 	for i < len(nodes) {
@@ -46,19 +49,27 @@ func splitIntoIncludes(p *PRNG, nodes []*DNode, l *Layout, files map[string][]by
 			if i+k > len(nodes) {
 				k = len(nodes) - i
 			}
-			name := prefix + "inc" + string(rune('a'+len(files)%26)) + ".jst"
+			rel := fmt.Sprintf("inc%d.jst", len(files)+1)
 			if p.Chance(1, 4) {
-				name = "sub/" + name
+				rel = "sub/" + rel
 			}
+			full := rel
+			if dir != "" {
+				full = dir + "/" + rel
+			}
+			files[full] = nil // reserve the name
 			run := nodes[i : i+k]
-			sub := splitIntoIncludes(p, run, l, files, prefix+"n", depth+1)
-			files[name] = []byte(RenderTree(sub, l))
-			out = append(out, &DNode{Keyword: "INCLUDE", Params: []string{name}})
+			sub := splitIntoIncludes(p, run, l, files, filepath.Dir(full), depth+1)
+			if filepath.Dir(full) == "." {
+				sub = splitIntoIncludes(p, run, l, files, "", depth+1)
+			}
+			files[full] = []byte(RenderTree(sub, l))
+			out = append(out, &DNode{Keyword: "INCLUDE", Params: []string{rel}})
 			i += k
 			continue
 		}
 		cp := *n
-		cp.Kids = splitIntoIncludes(p, n.Kids, l, files, prefix, depth+1)
+		cp.Kids = splitIntoIncludes(p, n.Kids, l, files, dir, depth+1)
 		out = append(out, &cp)
 		i++
 	}
